@@ -11,7 +11,8 @@
    mergeProps on (grouping of repeated class/style/listeners by [dedupe_props]); that part is
    covered by the oracle on real outputs. *)
 From VJ Require Import Model.Str Model.Json Model.Ast Model.State Model.Util Model.Directive
-  Model.Lower Spec.JsxText Spec.OutViews Spec.Site Spec.SiteCheck Lemmas.SiteProofs Lemmas.AttrsProofs Lemmas.ContribsProofs.
+  Model.Lower Spec.JsxText Spec.OutViews Spec.Site Spec.SiteCheck Lemmas.SiteProofs Lemmas.AttrsProofs Lemmas.ContribsProofs
+  Lemmas.ElementProofs.
 
 Definition C01_full_statement : Prop :=
   forall E el s, filter (starts_with (s_ "C01:")) (check_site E 40 el (fst (lower_el E el s))) = [].
@@ -98,3 +99,22 @@ Example C01_nonvacuous :
   /\ user_value (mk_str (s_ " a  b ")) = true
   /\ attr_name_str name = s_ "xlink:href".
 Proof. vm_compute. repeat split. Qed.
+
+(* THE FULL STATEMENT, proved for a fragment of the language.  With mergeProps off: an element
+   (of any nesting depth h) whose tag is an identifier / namespaced name / member expression,
+   whose attributes each satisfy their per-attribute refinement ([attr_good]: plain attributes,
+   spreads, runtime directives, v-html / v-text, v-model with a static argument, v-slots), has
+   no element-valued attribute, whose expression children are source expressions and whose
+   nested elements are of the same kind, is lowered - in any visitor state without a pending
+   assignment target - to an expression on which the independent reading of Spec/SiteCheck.v
+   has NO complaint at all: type, props in order, merge boundaries, directive bindings,
+   children / slots (C01, C02, C03, C04, C05 and the order tag of C11 together).
+   Outside the fragment (mergeProps on, element-valued attributes, transformOn objects, a
+   computed v-model argument, a sole function / object child of an element host) the statement
+   is decided by running the same [check_site] on the real output of every probe. *)
+Theorem C01_full_statement_on_fragment : forall E,
+  o_merge_props (e_opts E) = false ->
+  forall h el, good E h el -> forall f s, (h <= f)%nat -> assign_left s = None ->
+  check_site E f el (fst (lower_el E el s)) = [].
+Proof. intros E MP h el G f s LE Q. apply (element_refines E MP h el G f s LE Q). Qed.
+Print Assumptions C01_full_statement_on_fragment.
